@@ -2,7 +2,7 @@
 independent sub-agents). Each patch is applied to a scratch worktree OUTSIDE /repo and /verif; the check of the
 property named in meta.json must exit 1. Development-time tool; never part of a registered check.
 
-  /venv/bin/python selftest/seeded.py [/tmp/wt_verify] [name-filter ...] [--tier quick|thorough] [--all-checks]
+  /venv/bin/python selftest/seeded.py [/tmp/wt_verify] [name-filter ...] [--tier quick|thorough] [--full]
 """
 import json
 import os
@@ -22,6 +22,9 @@ def main():
     wt = next((a for a in args if a.startswith("/")), "/tmp/wt_verify")
     flt = [a for a in args if not a.startswith("/") and not a.startswith("--")]
     env = dict(os.environ, VERIF_REPO=wt, VERIF_EVIDENCE_DIR="/tmp/seeded_evidence", VERIF_REPLAY_DIR="/tmp/seeded_replays", VERIF_SCREEN="1")
+    full = "--full" in sys.argv  # the check exactly as registered: minimisation, replay files, fresh-interpreter replays
+    if full:
+        env.pop("VERIF_SCREEN")
     out = {}
     for name in sorted(os.listdir(os.path.join(VERIF, "seeded"))):
         d = os.path.join(VERIF, "seeded", name)
@@ -34,12 +37,18 @@ def main():
         if r.returncode != 0:
             print(name, "PATCH-DOES-NOT-APPLY", r.stderr[:200])
             continue
+        import time as _t
+
+        t0 = _t.time()
         r = subprocess.run([sys.executable, os.path.join(VERIF, "run.py"), "check", pid, "--tier", tier],
                            capture_output=True, text=True, env=env, timeout=4000)
+        took = _t.time() - t0
         sigs = [l.split("signature: ")[1][:170] for l in r.stdout.splitlines() if "signature: " in l]
         status = {1: "CAUGHT", 0: "MISSED", 2: "HARNESS-ERROR"}.get(r.returncode, f"rc={r.returncode}")
         out[name] = {"property": pid, "status": status, "signatures": sigs[:3]}
-        print(name, pid, status, sigs[:2], flush=True)
+        herr = [l[:200] for l in r.stdout.splitlines() if l.startswith("HARNESS-ERROR")]
+        print(name, pid, status, f"{took:.0f}s", f"violation_lines={sum(1 for l in r.stdout.splitlines() if l.startswith('VIOLATION'))}",
+              sigs[:1], herr[:2], flush=True)
         if r.returncode == 2:
             print(r.stdout[-500:])
     subprocess.run(["git", "-C", wt, "checkout", "-q", "--", "."], check=True)
